@@ -26,6 +26,7 @@ type crashCfg struct {
 	skipFns    map[string]string                    // function name -> reason: not reachable from untrusted input (local API)
 	fatalIsOK  map[string]string                    // "<function>|<construct>" for panic/log.Fatal sites excepted with reason
 	assertOK   func(*ssa.TypeAssert) (bool, string) // property-specific discharge of unchecked assertions
+	noCompiler bool                                 // engine fixture: every bounds site goes to the fact engine
 }
 
 // compilerUnproven runs the compiler's bounds-check report for the packages and returns the set
@@ -123,6 +124,21 @@ var fatalCalls = map[string]bool{
 	"os.Exit": true, "runtime.Goexit": true,
 }
 
+// allUnproven marks every index/slice position of the scope as not proven by the compiler.
+type allUnproven struct{}
+
+func (allUnproven) asMap(c *Ctx, cfg crashCfg) map[string]bool {
+	out := map[string]bool{}
+	for fn := range c.reach(cfg.entries, cfg.scope) {
+		eachInstr(fn, func(_ *ssa.BasicBlock, _ int, in ssa.Instruction) {
+			if in.Pos().IsValid() {
+				out[c.posKey(in.Pos())] = true
+			}
+		})
+	}
+	return out
+}
+
 type crashStats struct {
 	Functions     int            `json:"functions_in_scope"`
 	Sites         map[string]int `json:"sites_by_kind"`
@@ -134,10 +150,16 @@ type crashStats struct {
 
 func crashInventory(c *Ctx, r *Report, cfg crashCfg) crashStats {
 	st := crashStats{Sites: map[string]int{}}
-	unproven, err := compilerUnproven(c, cfg.bcePkgs)
-	if err != nil {
-		r.Fail(cfg.rule, "%v", err)
-		return st
+	var unproven map[string]bool
+	if cfg.noCompiler {
+		unproven = allUnproven{}.asMap(c, cfg)
+	} else {
+		var err error
+		unproven, err = compilerUnproven(c, cfg.bcePkgs)
+		if err != nil {
+			r.Fail(cfg.rule, "%v", err)
+			return st
+		}
 	}
 	reach := c.reach(cfg.entries, cfg.scope)
 	var fns []*ssa.Function
